@@ -12,6 +12,12 @@ package c11
 //   RawData() back to the model's data and (name, cid, tsize) list in the model's order, which
 //   is the stable sort by name of the insertion order.
 //
+// Copy and UpdateNodeLink produce a second node; the history continues on one of the two (generated)
+// and the other is set aside untouched. Every node set aside is re-checked with the full oracle
+// against its own model at later "full" observations and at the end: mutating one node must not
+// change the CID, encoding, data or links of another (shared link storage). A SetLinks whose list
+// contains an out-of-domain Tsize must be refused without effect or taken whole.
+//
 // At the end, if the link names are distinct, a fresh node is built from the same data and
 // links in a generated permutation; it must encode to the same bytes and CID.
 
@@ -53,6 +59,10 @@ type Op struct {
 	NilData bool            `json:"nil_data,omitempty"`
 	Links   []LinkSpec      `json:"links,omitempty"`
 	Prefix  *kit.PrefixSpec `json:"prefix,omitempty"`
+	// Stay (copy/update only): the history continues on the original node and the new node is
+	// the one set aside; otherwise the history continues on the new node and the original is
+	// set aside. Nodes set aside receive no further operations and are re-checked later.
+	Stay bool `json:"stay,omitempty"`
 }
 
 type Case struct {
@@ -127,7 +137,7 @@ func genData(t *rapid.T) (d []byte, isNil bool) {
 	}
 }
 
-var mutKinds = []string{"addraw", "addraw", "addraw", "addnode", "remove", "remove", "setdata", "setdata", "setlinks", "setbuilder", "badbuilder", "copy", "update", "addbig"}
+var mutKinds = []string{"addraw", "addraw", "addraw", "addnode", "remove", "remove", "setdata", "setdata", "setlinks", "setbuilder", "badbuilder", "copy", "update", "addbig", "setlinksbig"}
 var obsKinds = []string{"full", "full", "cid", "raw", "size", "stat", "links", "tree", "json", "data", "force", "getlink"}
 
 func gen(t *rapid.T) Case {
@@ -170,6 +180,11 @@ func gen(t *rapid.T) Case {
 			case "addnode", "update":
 				op.Name = rapid.SampledFrom(names).Draw(t, "name")
 				op.Target = rapid.IntRange(0, len(childPool)-1).Draw(t, "child")
+				if op.Kind == "update" {
+					op.Stay = rapid.IntRange(0, 2).Draw(t, "stay") == 0
+				}
+			case "copy":
+				op.Stay = rapid.IntRange(0, 2).Draw(t, "stay") == 0
 			case "remove":
 				op.Name = rapid.SampledFrom(names).Draw(t, "name")
 			case "setdata":
@@ -179,6 +194,15 @@ func gen(t *rapid.T) Case {
 				for j := 0; j < n; j++ {
 					op.Links = append(op.Links, genLink(t))
 				}
+			case "setlinksbig": // SetLinks with one Tsize above 2^63-1 somewhere in the list: as addbig
+				n := rapid.IntRange(0, 4).Draw(t, "nlinks")
+				for j := 0; j < n; j++ {
+					op.Links = append(op.Links, genLink(t))
+				}
+				bad := genLink(t)
+				bad.Size = rapid.SampledFrom([]uint64{1 << 63, math.MaxUint64, 1<<63 + 12345}).Draw(t, "big")
+				at := rapid.IntRange(0, n).Draw(t, "badpos")
+				op.Links = append(op.Links[:at:at], append([]LinkSpec{bad}, op.Links[at:]...)...)
 			case "setbuilder":
 				pf := kit.Prefixes(false).Draw(t, "prefix")
 				if rapid.Bool().Draw(t, "deflen") {
@@ -597,6 +621,26 @@ func run(c Case) kit.Result {
 
 	muts, separated, dupNames := 0, false, false
 	obsSinceMut := false
+	// Nodes set aside by Copy/UpdateNodeLink: each is a dag-pb node in its own right whose
+	// mutation sequence has ended, so its CID, encoding, data and links must stay what its model
+	// says whatever happens afterwards to the node it was copied from / copied to.
+	type aside struct {
+		n    *merkledag.ProtoNode
+		m    *model
+		at   int
+		what string
+	}
+	var asides []aside
+	linkMutAfterAside := false
+	refusedSetLinks := false
+	checkAsides := func() error {
+		for _, a := range asides {
+			if err := full(a.n, a.m, "cid"); err != nil {
+				return fmt.Errorf("%s set aside at op %d, not touched since: %v", a.what, a.at, err)
+			}
+		}
+		return nil
+	}
 	for i, op := range c.Ops {
 		fail := func(err error) kit.Result {
 			return kit.Fail("op %d (%s): %v", i, op.Kind, err)
@@ -608,6 +652,9 @@ func run(c Case) kit.Result {
 				err = light(n, m, op)
 			default:
 				err = full(n, m, op.Kind)
+				if err == nil && op.Kind == "full" {
+					err = checkAsides()
+				}
 			}
 			if err != nil {
 				return fail(err)
@@ -649,17 +696,25 @@ func run(c Case) kit.Result {
 			if err != nil {
 				return fail(fmt.Errorf("UpdateNodeLink: %v", err))
 			}
-			n = nn
-			m = m.clone()
-			keep := m.links[:0]
-			for _, l := range m.links {
+			nm := m.clone()
+			keep := nm.links[:0]
+			for _, l := range nm.links {
 				if l.name != op.Name {
 					keep = append(keep, l)
 				}
 			}
-			m.links = append(keep, mlink{op.Name, ch.Cid(), sz})
-			m.sortNow()
-			changed = true
+			nm.links = append(keep, mlink{op.Name, ch.Cid(), sz})
+			nm.sortNow()
+			if nm.data != nil && len(nm.data) == 0 {
+				nm.data = nil // as for Copy below
+			}
+			if op.Stay {
+				asides = append(asides, aside{nn, nm, i, "result of UpdateNodeLink"})
+			} else {
+				asides = append(asides, aside{n, m, i, "receiver of UpdateNodeLink"})
+				n, m = nn, nm
+				changed = true
+			}
 		case "remove":
 			err := n.RemoveNodeLink(op.Name)
 			found := false
@@ -701,6 +756,21 @@ func run(c Case) kit.Result {
 			m.links = ls
 			m.sortNow()
 			changed = true
+		case "setlinksbig":
+			// a list containing an out-of-domain Tsize: must be refused (then the node is what it
+			// was: a refused call is not one of the node's mutations) or taken whole and round-trip
+			ls := toM(op.Links)
+			fl := make([]*format.Link, len(ls))
+			for j, l := range ls {
+				fl[j] = &format.Link{Name: l.name, Cid: l.c, Size: l.size}
+			}
+			if err := n.SetLinks(fl); err == nil {
+				m.links = ls
+				m.sortNow()
+				changed = true
+			} else {
+				refusedSetLinks = true
+			}
 		case "setbuilder":
 			p := op.Prefix.Prefix()
 			if err := n.SetCidBuilder(p); err != nil {
@@ -715,15 +785,28 @@ func run(c Case) kit.Result {
 				return fail(fmt.Errorf("SetCidBuilder accepted an unusable hash function %#x", op.Prefix.MhType))
 			}
 		case "copy":
-			n = n.Copy().(*merkledag.ProtoNode)
-			m = m.clone()
-			m.sortNow() // documented: the copy has a properly sorted Links list
-			if m.data != nil && len(m.data) == 0 {
-				m.data = nil
+			nn := n.Copy().(*merkledag.ProtoNode)
+			nm := m.clone()
+			nm.sortNow() // documented: the copy has a properly sorted Links list
+			if nm.data != nil && len(nm.data) == 0 {
+				nm.data = nil
 			}
-			changed = true
+			if op.Stay {
+				asides = append(asides, aside{nn, nm, i, "copy"})
+			} else {
+				asides = append(asides, aside{n, m, i, "original of Copy"})
+				n, m = nn, nm
+				changed = true
+			}
 		default:
 			return kit.Fail("harness: unknown op %q", op.Kind)
+		}
+		if changed && len(asides) > 0 {
+			switch op.Kind {
+			case "remove", "addraw", "addbig", "addnode", "setlinks", "setlinksbig", "update":
+				// (UpdateNodeLink itself removes and adds on the copy it just made)
+				linkMutAfterAside = true
+			}
 		}
 		if changed {
 			muts++
@@ -740,6 +823,9 @@ func run(c Case) kit.Result {
 		}
 	}
 	if err := full(n, m, "cid"); err != nil {
+		return kit.Fail("final: %v", err)
+	}
+	if err := checkAsides(); err != nil {
 		return kit.Fail("final: %v", err)
 	}
 
@@ -794,6 +880,15 @@ func run(c Case) kit.Result {
 	}
 	if separated {
 		classes = append(classes, "obs-between-mutations")
+	}
+	if refusedSetLinks {
+		classes = append(classes, "setlinks-refused")
+	}
+	if len(asides) > 0 {
+		classes = append(classes, "node-set-aside")
+		if linkMutAfterAside {
+			classes = append(classes, "links-mutated-after-set-aside")
+		}
 	}
 	return kit.Result{NonTrivial: separated && dupNames, Classes: classes}
 }
